@@ -104,7 +104,7 @@ func escapeStr(caller string) string {
 
 func BuildMethodMap(structs []core_domain.CodeDataStruct) map[string][]string {
 	var methodMap = make(map[string][]string)
-	for _, clz := range structs {
+	for _, clz := range core_domain.WithInnerStructures(structs) {
 		for _, method := range clz.Functions {
 			methodName := method.BuildFullMethodName(clz)
 			// overloads share one full name: their callees add up
